@@ -253,6 +253,45 @@ def check_lookups(case, feats, lines, db, got, res):
                         key=absent, observed=repr(ex))
 
 
+def check_foreign_features(case, db, got, feats, res):
+    """look-ups by Feature OBJECT in another database: db2 is built from a reversed subset of db's features; db2[f] for a
+    feature object f that came from db is the feature stored in db2 under f.id - found when it is there (whatever its
+    position in either database), FeatureNotFoundError when it is not"""
+    import gffutils
+    import warnings
+    # the features whose key is their (single) ID attribute: re-importing them under the default id_spec keeps their keys
+    objs = [o for o in db.all_features() if list(o.attributes._d.get("ID", [])) == [o.id]]
+    if len(objs) < 3:
+        return
+    sub = list(reversed(objs))[::2]
+    try:
+        with warnings.catch_warnings():
+            warnings.simplefilter("ignore")
+            db2 = gffutils.create_db(sub, ":memory:", verbose=False)
+    except Exception as ex:
+        common.fail(res, case, "create_db_raised", "create_db from Feature objects of another database raised %r" % ex,
+                    error=dbside.err_name(ex))
+        return
+    inside = {f.id for f in sub}
+    res.count("lookup_by_feature_object_of_another_database")
+    for f in objs:
+        try:
+            g = db2[f]
+            if f.id not in inside:
+                common.fail(res, case, "absent_key_found",
+                            "db2[feature] returned a feature although no feature is stored under feature.id in db2",
+                            key=f.id, observed=str(g))
+                return
+            if g.id != f.id or str(g) != str(f):
+                common.fail(res, case, "lookup_by_feature_wrong", "db2[feature] is not the feature stored under feature.id",
+                            key=f.id, observed=str(g), expected=str(f))
+                return
+        except gffutils.FeatureNotFoundError:
+            if f.id in inside:
+                common.fail(res, case, "lookup_raised", "db2[feature] raised FeatureNotFoundError for a stored key", key=f.id)
+                return
+
+
 def check_delete(case, db, got, res):
     """look-ups stay exact after deletions on the same FeatureDB object: the victims are looked up, deleted (by id or
     as Feature objects), and every key is looked up again"""
@@ -579,6 +618,8 @@ def judge(ctx, case):
         check_delete(case, db, got, res)
     elif case["scenario"] == "rewrite_lookup":
         check_rewrite(case, db, got, res)
+    elif case["scenario"] == "foreign_features":
+        check_foreign_features(case, db, got, feats, res)
     return res
 
 
@@ -643,6 +684,8 @@ def run(ctx):
         if any(k != (dict(f["attrs"]).get("ID") or [None])[0] for k, f in zip(got, feats)):
             res.nontriv((tuple(lines), spec.describe()))
         check_lookups(case, feats, lines, db, got, res)
+        if i % 4 == 0:
+            check_foreign_features(mk_case("foreign_features", lines, feats, cfg), db, got, feats, res)
         cmds.append("dump"); exp.append(dbside.dump(db)); tags.append(("tables after import", repr(inp)))
         cmds.append("get " + enc(got[-1])); exp.append("IDONLY " + got[-1]); tags.append(("__getitem__", repr(inp)))
         cmds.append("get " + enc("__absent__")); exp.append("err FeatureNotFoundError")
